@@ -196,7 +196,9 @@ def steady_cases(seed, tier):
             for i in range(base, min(N, base + per)):
                 sh = shape if shape != 'mixed' else r.pick(shapes[:3])
                 if sh == 'get_cl':
-                    reqs.append(b'GET /%d?a=%d HTTP/1.1\r\nHost: h\r\nCookie: s=%d\r\n\r\n' % (i, i, i))
+                    # origin-form, and absolute-form targets (proxy traffic) whose authority agrees with the Host field
+                    tgt = [b'/%d' % i, b'http://h/%d' % i, b'http://h:80/%d' % i][i % 3]
+                    reqs.append(b'GET %s?a=%d HTTP/1.1\r\nHost: %s\r\nCookie: s=%d\r\n\r\n' % (tgt, i, b'h:80' if i % 3 == 2 else b'h', i))
                     ress.append(b'HTTP/1.1 200 OK\r\nContent-Length: 5\r\n\r\nhello')
                 elif sh == 'post_chunked_gzip':
                     reqs.append(b'POST /%d HTTP/1.1\r\nHost: h\r\nContent-Type: application/x-www-form-urlencoded\r\nTransfer-Encoding: chunked\r\n\r\n7\r\na=1&b=2\r\n0\r\n\r\n' % i)
